@@ -256,9 +256,10 @@ def run(ctx):
             for b, t in f.calls():
                 if last_seg(fx.callee_decl(t)) == "write_str" and len(t["args"]) > 1 and f.sym_operand(t["args"][1])[:2] == ("const", "- "):
                     dash_fns.append((f, b))
-        ctx.floor("SIBLING.dash-emitters", len(dash_fns), 2, config)
+        ctx.floor("SIBLING.dash-emitters", len(dash_fns), 1, config)
         for f, db in dash_fns:
             ctx.saw(f)
+            nm = f.npath.split(" as ")[0].strip("<").split("::")[-1]
             nested = [b for b, t in f.calls() if t["f"].get("trait") == "serde::Serialize" and t["f"].get("name") == "serialize" and b in f.reachable([db])]
             staged = {"after_dash_depth": [], "pending_inline_map": []}
             for b, i, s_ in f.stmts():
@@ -269,9 +270,24 @@ def run(ctx):
                         if (fld == "after_dash_depth" and v[0] == "aggr" and v[2] == "Some") or (fld == "pending_inline_map" and v == ("const", True, "bool")):
                             staged[fld].append(b)
             for fld, bl in staged.items():
-                okh = bool(nested) and all(any(b2 in f.reachable([db]) and (f.dominates(b2, nb) or b2 == nb) for b2 in bl) for nb in nested)
-                ctx.check(okh, "SIBLING", "C13:SIBLING:dash-emitter:%s:%s" % (f.npath.split(" as ")[0].strip("<").split("::")[-1], fld), "after writing `- ` the emitter stages `%s` before serializing the element" % fld,
-                          "%s writes `- ` and serializes the element without staging `%s` (the sequence serializer does): a nested collection is indented from the wrong base and the document does not read back" % (f.npath, fld), config, ctx.where(f, db))
+                after = [b2 for b2 in bl if b2 in f.reachable([db]) or b2 == db]
+                if nested:
+                    okh = all(any(f.dominates(b2, nb) or b2 == nb for b2 in after) for nb in nested)
+                else:
+                    # a helper that only writes the marker: it stages the hints itself on every path to its return
+                    okret = [b3 for b3, i3, adt3, var3, fl3, ops3, s3 in aggregates(f) if s3["p"]["l"] == 0 and var3 == "Ok"]
+                    okh = (db in after) or (bool(after) and must_pass(f, [db], after, to_blocks=okret or None))
+                ctx.check(okh, "SIBLING", "C13:SIBLING:dash-emitter:%s:%s" % (nm, fld), "after writing `- ` the emitter stages `%s` before the element is serialized" % fld,
+                          "%s writes `- ` without staging `%s` for the element that follows (the sequence serializer does): a nested collection is indented from the wrong base and the document does not read back" % (f.npath, fld), config, ctx.where(f, db))
+            # PROLOGUE / line state: write_indent is what emits the document prologue and pads the line; the marker may skip it
+            # only on a path that consulted a line-state boolean (first element inline after a dash, …) — never because of a
+            # numeric coincidence such as depth == 0
+            wi = {b for b, t in f.calls() if fx.callee(t).endswith("::write_indent")}
+            bs = {sb for sb, sym, tt, ff in bool_switches(f) if sym[0] not in ("bin",) and not (sym[0] == "un" and sym[2][0] == "bin")}
+            from .C07 import reach_avoiding
+            free = reach_avoiding(f, [0], wi | bs, set())
+            ctx.check(db not in free or db in bs, "SIBLING", "C13:SIBLING:dash-emitter:%s:indent-or-line-state" % nm, "the marker is preceded by write_indent unless a line-state flag says the line continues",
+                      "%s can write `- ` at a line start without calling write_indent and without consulting a line-state flag (e.g. because depth == 0): the `%%YAML` prologue, which write_indent emits first, then lands in the middle of the document" % f.npath, config, ctx.where(f, db))
         ts = fx.fn("<&mut ser::YamlSerializer as serde::Serializer>::serialize_tuple_struct")
         ctx.saw(ts)
         ctx.check(any(fx.callee(t).endswith("::serialize_seq") for b, t in ts.calls()), "SIBLING", "C13:SIBLING:tuple-struct-delegates", "ordinary tuple structs are laid out by serialize_seq",
